@@ -241,6 +241,27 @@ func (st *Stream) Step(l Letter) (viol []Violation) {
 		}
 		viol = append(viol, Violation{prop, fmt.Sprintf(format, a...)})
 	}
+	if l.Op != "" {
+		if st.pipelined && st.phase == 1 {
+			st.cursor++
+			return nil
+		}
+		if st.pipelined {
+			st.stored = append(st.stored, nil)
+		}
+		pan := protect(func() {
+			switch l.Op {
+			case "resetstats":
+				_ = st.prod.GetAndResetStats()
+			case "sizestats":
+				_ = st.prod.RecordSizeStats()
+			}
+		})
+		if pan != "" {
+			add("C08", "producer panicked in %s: %s", l.Op, pan)
+		}
+		return viol
+	}
 	if st.pipelined && st.phase == 1 {
 		if st.cursor >= len(st.stored) {
 			return nil
@@ -612,3 +633,15 @@ func scanMessages(b []byte, first bool) string {
 }
 
 var _ = errors.New
+
+// uncheckedIndexing reports whether a recovered panic comes out of the record
+// accessors of pkg/arrow indexing into an Arrow dictionary/array whose entries
+// were never received (a sub-stream that lost payloads): the class the
+// properties exclude ("reaches unchecked indexing inside the Arrow library").
+func uncheckedIndexing(pan string) bool {
+	lines := strings.Split(pan, "\n")
+	if len(lines) < 2 || !strings.Contains(lines[0], "index out of range") {
+		return false
+	}
+	return strings.Contains(lines[1], "otel-arrow/pkg/arrow.")
+}
